@@ -115,7 +115,10 @@ Step ==
                   IF x = 0 THEN (IF AllEmpty THEN "ok" ELSE "idle_empty")
                   ELSE IF inLocal THEN (IF PopOK(local[q], x) THEN "ok" ELSE "order")
                   ELSE IF inShared THEN (IF PopOK(shared, x) THEN "ok" ELSE "order")
-                  ELSE IF other # 0 THEN (IF PopOK(local[other], x) THEN "ok" ELSE "order")
+                  \* an item that (by the steal events so far) still lies in another local queue: taken over by a steal whose
+                  \* event is yet to come - but never while the popping queue holds items itself (a local queue steals only
+                  \* when it is empty, and what it has stolen it pops oldest first)
+                  ELSE IF other # 0 THEN (IF local[q] = <<>> /\ PopOK(local[other], x) THEN "ok" ELSE "order")
                   ELSE IF x \in outs THEN "dup"
                   ELSE "phantom"
                 starved == x # 0 /\ ~inShared /\ waiting /\ since[q] + 1 >= Period
